@@ -10,6 +10,9 @@
 (*   eq_op / eq_po   original == parsed, parsed == original (0/1)                  *)
 (*   retoks tokens of str(parsed) resp. benchmark_id of the re-read Solution       *)
 (*   fld, b present on events recorded after `obj.<fld> = <value of fld in id b>` *)
+(*   pp     planning problem ids of the passed planning problem solutions, ord = Solution.planning_problem_ids,  *)
+(*          nodes = planningProblem attributes of the written trajectory nodes,     *)
+(*          got_assoc = (planning problem id, model, type, cost) of the read Solution *)
 (*   lib    1 iff ScenarioID.benchmark_id_pattern fully matches str(id)            *)
 (*   got_*  fields of the Solution returned by CommonRoadSolutionReader.fromstring *)
 (*          (route "reader") or by _parse_benchmark_id/_parse_vehicle_id ("direct")*)
@@ -22,7 +25,12 @@ tvars == <<tid, l, err>>
 (* events recorded after an assignment `object.<fld> = value of that field in id b` carry fld and b; the id the
    object then is, is computed here *)
 FOf(e)   == IF "fld" \in DOMAIN e THEN After(e.f, e.fld, e.b) ELSE e.f
-SolIn(e) == [vs |-> e.vs, cs |-> e.cs, f |-> FOf(e)]
+(* the solution as passed in: planning problem solution i has planning problem id pp[i], vehicle vs[i], cost cs[i] *)
+SolGiven(e) == [vs |-> e.vs, cs |-> e.cs, pp |-> e.pp, f |-> FOf(e)]
+(* ord = Solution.planning_problem_ids of the real object: the order in which the library lists the planning problem
+   solutions.  The printed / parsed lists are positional in THAT order (the statement does not fix which order). *)
+SolIn(e) == IF "ord" \in DOMAIN e /\ IsPermOf(e.ord, e.pp) THEN Arrange(SolGiven(e), e.ord) ELSE SolGiven(e)
+GotAssignment(a) == {<<a[i].pp, a[i].m, a[i].t, a[i].c>> : i \in 1..Len(a)}
 
 Clause(e) ==
   CASE e.op = "construct" ->
@@ -47,19 +55,26 @@ Clause(e) ==
          IF e.res # "ok" THEN "C13.Total/reprint"
          ELSE IF e.retoks # e.toks THEN "C13.Reprint" ELSE ""
     [] e.op = "sol_construct" ->
-         IF ~ValidSol(SolIn(e)) THEN "driver/invalid-solution-case"
+         IF ~ValidSol(SolGiven(e)) THEN "driver/invalid-solution-case"
          ELSE IF e.res # "ok" THEN "C13.Total/sol_construct" ELSE ""
     [] e.op = "sol_print" ->
          IF e.res # "ok" THEN "C13.Total/sol_print"
          ELSE IF e.toks # PrintSol(SolIn(e)) THEN "C13.Sol/Print" ELSE ""
     [] e.op = "sol_grammar" ->
          IF ~AcceptsSol(e.toks) THEN "C13.Sol/Grammar" ELSE ""
+    [] e.op = "sol_align" ->      \* nodes = planning problem ids of the trajectory nodes of the written document, in order
+         IF e.res # "ok" THEN "C13.Total/sol_write"
+         ELSE IF ~IsPermOf(e.ord, e.pp) THEN "C13.Sol/Aligned/planning-problem-ids"
+         ELSE IF ~AlignedText(SolGiven(e), e.toks, e.nodes) THEN "C13.Sol/Aligned" ELSE ""
     [] e.op = "sol_parse" ->
          IF e.res # "ok" THEN "C13.Total/" \o (IF e.route = "reader" THEN "sol_read" ELSE "sol_parse")
-         ELSE CASE e.field = "vehicles"    -> IF e.got_vs # e.vs THEN "C13.Sol/Parse/vehicles" ELSE ""
-                [] e.field = "costs"       -> IF e.got_cs # e.cs THEN "C13.Sol/Parse/costs" ELSE ""
+         ELSE CASE e.field = "vehicles"    -> IF e.got_vs # SolIn(e).vs THEN "C13.Sol/Parse/vehicles" ELSE ""
+                [] e.field = "costs"       -> IF e.got_cs # SolIn(e).cs THEN "C13.Sol/Parse/costs" ELSE ""
                 [] e.field = "scenario_id" -> IF ~SameId(e.got_f, Normalize(FOf(e))) \/ e.eq_op # 1 \/ e.eq_po # 1
                                               THEN "C13.Sol/Parse/scenario_id" ELSE ""
+                [] e.field = "assignment"  -> IF Len(e.got_assoc) # Len(e.pp) \/
+                                                 GotAssignment(e.got_assoc) # Assignment(e.vs, e.cs, e.pp)
+                                              THEN "C13.Sol/Parse/assignment" ELSE ""
                 [] e.field = "version"     -> IF e.got_ver # FOf(e).ver THEN "C13.Sol/Parse/version" ELSE ""
                 [] OTHER -> "machinery/unknown-field"
     [] e.op = "sol_reprint" ->
